@@ -2518,8 +2518,10 @@ class CompressedCertificate(Certificate):
                 decompressor = zlib.decompressobj(15)
                 decompressed_msg = decompressor.decompress(
                     compressed_msg, max(expected_length, 1))
-                if decompressor.unconsumed_tail or not decompressor.eof:
-                    raise ValueError("Decompressed message too long")
+                if decompressor.unconsumed_tail or not decompressor.eof \
+                        or decompressor.unused_data:
+                    raise ValueError("Decompressed message too long or "
+                                     "followed by trailing data")
             elif self.compression_algo == \
                     CertificateCompressionAlgorithm.brotli:
                 if compression_algo_impls["brotli_accepts_limit"]:
